@@ -15,6 +15,7 @@ package main
 import (
 	"context"
 	"fmt"
+	"math"
 	"runtime"
 	"sort"
 	"strconv"
@@ -120,11 +121,13 @@ type detShared struct {
 	fired     bool
 	cancel    context.CancelFunc
 	hostAfter int
-	after     []string // stacks at polls after firing
+	after     []string // stacks at polls after firing (the first 80)
+	afterN    int      // number of polls after firing
 	fireStack string
 	all       []string // every poll's stack (baseline runs only)
 	recordAll bool
-	fuse      int // Go panic in Done() when polls exceed this (runaway guard)
+	fuse      int  // Go panic in Done() when polls exceed this (runaway guard)
+	armed     bool // false while the host is still setting the state up (polls of warm-up calls are not part of the scenario)
 	rootTok   string
 	readG     func() string // value of the global `g` (programs count their progress there with plain instructions)
 	gAtFire   string
@@ -136,9 +139,9 @@ type detCtx struct {
 	sh    *detShared
 }
 
-func (d *detCtx) Deadline() (time.Time, bool)       { return d.inner.Deadline() }
-func (d *detCtx) Err() error                        { return d.inner.Err() }
-func (d *detCtx) Value(k interface{}) interface{}   { return d.inner.Value(k) }
+func (d *detCtx) Deadline() (time.Time, bool)     { return d.inner.Deadline() }
+func (d *detCtx) Err() error                      { return d.inner.Err() }
+func (d *detCtx) Value(k interface{}) interface{} { return d.inner.Value(k) }
 func (d *detCtx) Done() <-chan struct{} {
 	sh := d.sh
 	var pc [1]uintptr
@@ -149,13 +152,16 @@ func (d *detCtx) Done() <-chan struct{} {
 			isPoll = f.Function == luaPkg+"mainLoopWithContext"
 			sh.isPollPC[pc[0]] = isPoll
 		}
-		if isPoll {
+		if isPoll && sh.armed {
 			sh.polls++
 			if sh.fuse > 0 && sh.polls > sh.fuse {
 				panic("C11M-fuse: script still polling long after the context was done")
 			}
 			if sh.fired {
-				sh.after = append(sh.after, absStack(sh.rootTok))
+				sh.afterN++
+				if len(sh.after) < 80 { // the request line shows at most 64 of them
+					sh.after = append(sh.after, absStack(sh.rootTok))
+				}
 			} else if sh.polls == sh.fireAt {
 				sh.fired = true
 				sh.fireStack = absStack(sh.rootTok)
@@ -219,6 +225,342 @@ func c11Note(fireStack string, after int) {
 	if d > c11Stats.maxDepth {
 		c11Stats.maxDepth = d
 	}
+}
+
+// ---------- state set-up ----------
+
+// c11Setup: how the host brought the state to the point where the outermost call of a scenario starts.  What the
+// property promises does not depend on it; every scenario family (fire / transp / script / block) is crossed with it.
+//
+//	Libs   open   = lua.NewState(): OpenLibs has already made calls on the state (G.MainThread is set)
+//	       call   = Options{SkipOpenLibs} + each library opened the documented way (Push(NewFunction(OpenX)); Call)
+//	       direct = Options{SkipOpenLibs} + the OpenX functions invoked as plain Go functions: tables are filled, but
+//	                NO call has ever been made on the state
+//	       none   = Options{SkipOpenLibs}, no library at all (only host functions installed with SetGlobal)
+//	Pre    host operations on the (not running) state, in order:  w = an earlier call that returned,
+//	       sc<n> = SetContext(context n; 0 = the context of the scenario), rc = RemoveContext, cc<n> = cancel context n,
+//	       R = an earlier run under its own context that was stopped by cancelling it (reused state)
+//	Entry  API entry point of the outermost call: do = DoString, pcall = PCall(nil handler), pcallh = PCall(Lua message
+//	       handler), call = unprotected Call, cbp / cbph = CallByParam{Protect[, Handler]}, resume = Resume of a fresh
+//	       thread made by NewThread, wdo = DoString on a worker thread made by NewThread (the main state carries
+//	       another context; Pre is applied to the worker)
+type c11Setup struct {
+	Libs  string
+	Pre   []string
+	Entry string
+}
+
+func (s c11Setup) String() string {
+	pre := "-"
+	if len(s.Pre) > 0 {
+		pre = strings.Join(s.Pre, "+")
+	}
+	return s.Libs + "/" + pre + "/" + s.Entry
+}
+
+func parseC11Setup(t string) (c11Setup, bool) {
+	f := strings.Split(t, "/")
+	if len(f) != 3 {
+		return c11Setup{}, false
+	}
+	su := c11Setup{Libs: f[0], Entry: f[2]}
+	if f[1] != "-" && f[1] != "" {
+		su.Pre = strings.Split(f[1], "+")
+	}
+	return su, true
+}
+
+// calledBefore: some call has been made in the global state before the outermost call of the scenario starts.
+func (s c11Setup) calledBefore() bool {
+	if s.Libs == "open" || s.Libs == "call" {
+		return true
+	}
+	for _, o := range s.Pre {
+		if o == "w" || o == "R" {
+			return true
+		}
+	}
+	return false
+}
+
+func (s c11Setup) rootTok() string {
+	if s.Entry == "pcallh" || s.Entry == "cbph" {
+		return "Xl"
+	}
+	return "P"
+}
+
+var c11LibList = []struct {
+	name string
+	open lua.LGFunction
+}{
+	{lua.LoadLibName, lua.OpenPackage}, {lua.BaseLibName, lua.OpenBase}, {lua.TabLibName, lua.OpenTable},
+	{lua.StringLibName, lua.OpenString}, {lua.MathLibName, lua.OpenMath}, {lua.ChannelLibName, lua.OpenChannel},
+	{lua.CoroutineLibName, lua.OpenCoroutine},
+}
+
+func c11NewState(libs string) *lua.LState {
+	switch libs {
+	case "open", "":
+		return lua.NewState()
+	case "none":
+		return lua.NewState(lua.Options{SkipOpenLibs: true})
+	case "direct":
+		L := lua.NewState(lua.Options{SkipOpenLibs: true})
+		for _, l := range c11LibList {
+			l.open(L) // a plain Go call: fills the tables, makes no call on the state
+			L.SetTop(0)
+		}
+		return L
+	case "call":
+		L := lua.NewState(lua.Options{SkipOpenLibs: true})
+		for _, l := range c11LibList {
+			L.Push(L.NewFunction(l.open))
+			L.Push(lua.LString(l.name))
+			L.Call(1, 0)
+		}
+		return L
+	}
+	panic("bad libs " + libs)
+}
+
+const c11Warm = `x = 1 function roothandler(e) local z=0 for i=1,2 do z=z+i end emit("roothandler") return e end`
+
+// the Lua message handler of the entries pcallh / cbph: a chunk (made by LoadString: no call needed to define it)
+const c11RootHandler = `local e = ... local z=0 for i=1,2 do z=z+i end emit("roothandler") return e`
+
+// the same for scripts: the message handler of the driver program (it fetches operations like every other body)
+const c11ScriptRootHandler = `return HANDLER(...)`
+
+// the earlier run of set-up operation R: the host cancels its context at a fixed point; the loop is bounded so that
+// an implementation that does not stop it is reported instead of hanging the harness
+const c11EarlierRun = `c11cancelR() local i = 0 while i < 1000 do i = i + 1 end`
+
+// c11ApplyPre performs the Pre operations on run (L = the main state of the same family, for globals).
+// ctxOf(n) / cancelOf(n): context n and its cancel function; useCtx=false: the same calls without any context.
+// It returns a non-empty text when the earlier run of an R operation was not stopped by its cancellation.
+func c11ApplyPre(L, run *lua.LState, pre []string, useCtx bool, ctxOf func(int) context.Context, cancelOf func(int)) (bad string) {
+	attached := -1 // the context attached to run by the operations so far (-1: none or not one of ours), and the cancelled ones
+	cancelled := map[int]bool{}
+	for _, op := range pre {
+		switch {
+		case op == "w":
+			// an earlier call: it returns normally, unless the context attached right now is done (then it is refused)
+			want := "ok"
+			if useCtx && cancelled[attached] {
+				want = "err:cancelled"
+			}
+			if r := classifyErr(run.DoString(c11Warm)); r != want && bad == "" {
+				bad = "the earlier call of set-up operation w ended with " + r + ", expected " + want
+			}
+		case op == "rc":
+			run.RemoveContext()
+			attached = -1
+		case op == "R":
+			if useCtx {
+				run.SetContext(ctxOf(9))
+			}
+			attached, cancelled[9] = 9, true
+			L.SetGlobal("c11cancelR", L.NewFunction(func(*lua.LState) int {
+				if useCtx {
+					cancelOf(9)
+				}
+				return 0
+			}))
+			err := run.DoString(c11EarlierRun)
+			if r := classifyErr(err); useCtx && r != "err:cancelled" && bad == "" {
+				bad = "the earlier run of set-up operation R was not stopped by the cancellation of its context: it ended with " + r
+			} else if !useCtx && err != nil {
+				panic(err)
+			}
+		case strings.HasPrefix(op, "sc"):
+			n, _ := strconv.Atoi(op[2:])
+			if useCtx {
+				run.SetContext(ctxOf(n))
+			}
+			attached = n
+		case strings.HasPrefix(op, "cc"):
+			n, _ := strconv.Atoi(op[2:])
+			if useCtx {
+				ctxOf(n)
+				cancelOf(n)
+			}
+			cancelled[n] = true
+		default:
+			panic("bad set-up operation " + op)
+		}
+	}
+	return
+}
+
+// c11Enter makes the outermost call of a scenario on run through the entry point of the set-up.  src is the chunk;
+// a yield that reaches Resume ends the call (yieldEnds) or is resumed again.  wrapRoot is applied to the fresh thread
+// of entry resume before it starts.
+func c11Enter(run *lua.LState, entry, src, handlerSrc string, yieldEnds bool, wrapRoot func(*lua.LState)) (err error) {
+	load := func(s string) *lua.LFunction {
+		fn, e := run.LoadString(s)
+		if e != nil {
+			panic(e)
+		}
+		return fn
+	}
+	switch entry {
+	case "do", "wdo":
+		return run.DoString(src)
+	case "pcall":
+		run.Push(load(src))
+		return run.PCall(0, lua.MultRet, nil)
+	case "pcallh":
+		run.Push(load(src))
+		return run.PCall(0, lua.MultRet, load(handlerSrc))
+	case "cbp":
+		return run.CallByParam(lua.P{Fn: load(src), NRet: lua.MultRet, Protect: true})
+	case "cbph":
+		return run.CallByParam(lua.P{Fn: load(src), NRet: lua.MultRet, Protect: true, Handler: load(handlerSrc)})
+	case "call":
+		// unprotected: the error reaches the host as a Go panic
+		defer func() {
+			if r := recover(); r != nil {
+				if ae, ok := r.(*lua.ApiError); ok {
+					err = ae
+				} else {
+					err = fmt.Errorf("%v", r)
+				}
+			}
+		}()
+		run.Push(load(src))
+		run.Call(0, lua.MultRet)
+		return nil
+	case "resume":
+		fn := load(src)
+		co, _ := run.NewThread()
+		if wrapRoot != nil {
+			wrapRoot(co)
+		}
+		for {
+			st, e2, _ := run.Resume(co, fn)
+			if st == lua.ResumeError {
+				return e2
+			}
+			if st == lua.ResumeOK || yieldEnds {
+				return nil
+			}
+		}
+	}
+	panic("bad entry " + entry)
+}
+
+// c11SetupOf: the set-up the corpus programs have always run in (Mode = the entry point).
+func c11SetupOf(p c11Prog) c11Setup {
+	su := c11Setup{Libs: "open", Pre: []string{"w", "sc0"}, Entry: "do"}
+	switch p.Mode {
+	case "worker":
+		su.Entry = "wdo"
+	case "rootxl":
+		su.Entry = "pcallh"
+	case "resume":
+		su.Entry = "resume"
+	}
+	return su
+}
+
+// c11NeedsLibs: the program uses a library function (cannot run in a state without libraries).
+func c11NeedsLibs(p c11Prog) bool {
+	for _, w := range []string{"pcall", "error", "coroutine.", "setmetatable", "rawset", "table.", "string.", ":rep", ":sub", ":find", ":upper", "channel.", "select(", "pairs(", "tostring"} {
+		if strings.Contains(p.Src, w) {
+			return true
+		}
+	}
+	return false
+}
+
+// c11FirstNestedCallIsMeta: the first nested call the program makes is a metamethod call started directly by an
+// instruction (LState.callR called from the dispatch loop, no Go function in between).
+func c11FirstNestedCallIsMeta(p c11Prog) bool { return strings.HasPrefix(p.Name, "meta-") }
+
+// c11Compatible: can program p run in set-up su?
+func c11Compatible(p c11Prog, su c11Setup) bool {
+	if p.Mode != "" {
+		return false // worker / rootxl / resume / replace programs ARE an entry point of their own
+	}
+	if su.Libs == "none" && c11NeedsLibs(p) {
+		return false
+	}
+	// Excluded shape (a defect of the unchanged tree outside C11, reported in notes/C11.md): Resume of a fresh thread as the
+	// very first call of a global state, whose first nested call is a metamethod call: callR's bootstrap branch
+	// (G.MainThread == nil) runs the nested loop with baseframe == nil → Go nil-pointer panic out of Resume.
+	if su.Entry == "resume" && !su.calledBefore() && c11FirstNestedCallIsMeta(p) {
+		return false
+	}
+	return true
+}
+
+// c11PreSeqs enumerates the Pre sequences: every sequence of at most 2 operations over {w, sc1, rc, R, cc1} (cc1 only
+// after sc1), then — attached = true — SetContext of the scenario's context, optionally followed by a call under it
+// (w) or by the cancellation of the replaced context (cc1).  attached = false: the bare prefixes (the state ends up
+// with no context, a foreign one, or a done one).
+func c11PreSeqs(attached bool) [][]string {
+	alpha := []string{"w", "sc1", "rc", "R", "cc1"}
+	var prefixes [][]string
+	prefixes = append(prefixes, nil)
+	valid := func(s []string) bool {
+		seen := false
+		for _, o := range s {
+			if o == "sc1" {
+				seen = true
+			}
+			if o == "cc1" && !seen {
+				return false
+			}
+		}
+		return true
+	}
+	for _, a := range alpha {
+		if valid([]string{a}) {
+			prefixes = append(prefixes, []string{a})
+		}
+	}
+	for _, a := range alpha {
+		for _, b := range alpha {
+			if valid([]string{a, b}) {
+				prefixes = append(prefixes, []string{a, b})
+			}
+		}
+	}
+	if !attached {
+		return prefixes
+	}
+	var res [][]string
+	for _, pf := range prefixes {
+		base := append(append([]string{}, pf...), "sc0")
+		res = append(res, base)
+		res = append(res, append(append([]string{}, base...), "w"))
+		has := func(o string) bool {
+			for _, x := range pf {
+				if x == o {
+					return true
+				}
+			}
+			return false
+		}
+		if has("sc1") && !has("cc1") {
+			res = append(res, append(append([]string{}, base...), "cc1"))
+		}
+	}
+	return res
+}
+
+var c11Entries = []string{"do", "pcall", "pcallh", "call", "cbp", "cbph", "resume", "wdo"}
+
+func c11LibKinds(thorough, withNone bool) []string {
+	l := []string{"open", "direct"}
+	if withNone {
+		l = append(l, "none")
+	}
+	if thorough {
+		l = append(l, "call")
+	}
+	return l
 }
 
 // ---------- corpus of programs ----------
@@ -294,11 +636,12 @@ var c11Progs = []c11Prog{
 }
 
 type c11Result struct {
-	sh     *detShared
-	emits  []string
-	res    string // ok | err:cancelled | err:lua | err:panic | timeout
-	msg    string
-	gEnd   string // global g after the outermost call returned
+	sh       *detShared
+	emits    []string
+	res      string // ok | err:cancelled | err:lua | err:panic | timeout
+	msg      string
+	gEnd     string // global g after the outermost call returned
+	setupBad string // an earlier run of the set-up (operation R) was not stopped by its cancellation
 }
 
 func classifyErr(err error) string {
@@ -320,16 +663,23 @@ func classifyErr(err error) string {
 
 var c11Timeouts int32
 
-// runC11Prog runs one program. fireAt = 0: never fire; useCtx=false: no context at all; track: wrap the child
-// contexts of coroutines so that their polls are counted too; limit: value of LIMIT ("" = math.huge).
+// runC11Prog runs one program in the set-up it has always run in. fireAt = 0: never fire; useCtx=false: no context
+// at all; track: wrap the child contexts of coroutines so that their polls are counted too; limit: value of LIMIT
+// ("" = math.huge).
 func runC11Prog(p c11Prog, fireAt int, useCtx, track bool, limit string, recordAll bool, maxPolls int) (res c11Result) {
+	return runC11ProgIn(c11SetupOf(p), p, fireAt, useCtx, track, limit, recordAll, maxPolls)
+}
+
+// runC11ProgIn: the same in an arbitrary state set-up.  fireAt = -1: the context is cancelled by the host after the
+// set-up, before the outermost call starts.
+func runC11ProgIn(su c11Setup, p c11Prog, fireAt int, useCtx, track bool, limit string, recordAll bool, maxPolls int) (res c11Result) {
 	done := make(chan struct{})
-	sh := &detShared{fireAt: fireAt, isPollPC: map[uintptr]bool{}, recordAll: recordAll, rootTok: "P"}
-	if p.Mode == "rootxl" {
-		sh.rootTok = "Xl"
-	}
-	if fireAt > 0 {
-		sh.fuse = fireAt + 20000
+	sh := &detShared{fireAt: fireAt, isPollPC: map[uintptr]bool{}, recordAll: recordAll, rootTok: su.rootTok()}
+	if fireAt != 0 {
+		sh.fuse = 20000
+		if fireAt > 0 {
+			sh.fuse += fireAt
+		}
 	} else if maxPolls > 0 {
 		sh.fuse = maxPolls
 	}
@@ -341,12 +691,8 @@ func runC11Prog(p c11Prog, fireAt int, useCtx, track bool, limit string, recordA
 				res.res, res.msg = "gopanic", fmt.Sprint(r)
 			}
 		}()
-		L := lua.NewState()
+		L := c11NewState(su.Libs)
 		defer L.Close()
-		// the main state has run before (G.MainThread is set); roothandler is the Lua error handler of mode rootxl
-		if err := L.DoString(`x = 1 function roothandler(e) local z=0 for i=1,2 do z=z+i end emit("roothandler") return e end`); err != nil {
-			panic(err)
-		}
 		rt := NewRefTable()
 		run := L
 		sh.readG = func() string { return encVal(L.GetGlobal("g"), rt) }
@@ -360,14 +706,11 @@ func runC11Prog(p c11Prog, fireAt int, useCtx, track bool, limit string, recordA
 			sh.cancel = cancel
 			return &detCtx{inner: root, sh: sh}
 		}
-		if p.Mode == "worker" {
+		if su.Entry == "wdo" {
 			// the main state carries its own context, which is never cancelled
 			L.SetContext(context.Background())
 			w, _ := L.NewThread()
 			run = w
-		}
-		if useCtx {
-			run.SetContext(newRoot())
 		}
 		emit := func(L *lua.LState) int {
 			if sh.fired {
@@ -397,56 +740,54 @@ func runC11Prog(p c11Prog, fireAt int, useCtx, track bool, limit string, recordA
 			return 0
 		}))
 		if limit == "" {
-			L.SetGlobal("LIMIT", L.GetField(L.GetGlobal("math"), "huge"))
+			if mt, ok := L.GetGlobal("math").(*lua.LTable); ok {
+				L.SetGlobal("LIMIT", mt.RawGetString("huge"))
+			} else {
+				L.SetGlobal("LIMIT", lua.LNumber(math.MaxFloat64))
+			}
 		} else {
 			n, _ := strconv.Atoi(limit)
 			L.SetGlobal("LIMIT", lua.LNumber(n))
 		}
 		// coroutine.create / wrap: call the real library function, then wrap the new thread's child context
-		cot := L.GetGlobal("coroutine").(*lua.LTable)
-		origCreate := cot.RawGetString("create").(*lua.LFunction).GFunction
-		origWrap := cot.RawGetString("wrap").(*lua.LFunction).GFunction
-		cot.RawSetString("create", L.NewFunction(func(L *lua.LState) int {
-			n := origCreate(L)
-			wrap(L.Get(-1).(*lua.LState))
-			return n
-		}))
-		cot.RawSetString("wrap", L.NewFunction(func(L *lua.LState) int {
-			n := origWrap(L)
-			wrap(L.Get(-1).(*lua.LFunction).Upvalues[0].Value().(*lua.LState))
-			return n
-		}))
-		var err error
-		switch p.Mode {
-		case "rootxl":
-			fn, e := run.LoadString(p.Src)
-			if e != nil {
-				panic(e)
+		if cot, ok := L.GetGlobal("coroutine").(*lua.LTable); ok {
+			origCreate := cot.RawGetString("create").(*lua.LFunction).GFunction
+			origWrap := cot.RawGetString("wrap").(*lua.LFunction).GFunction
+			cot.RawSetString("create", L.NewFunction(func(L *lua.LState) int {
+				n := origCreate(L)
+				wrap(L.Get(-1).(*lua.LState))
+				return n
+			}))
+			cot.RawSetString("wrap", L.NewFunction(func(L *lua.LState) int {
+				n := origWrap(L)
+				wrap(L.Get(-1).(*lua.LFunction).Upvalues[0].Value().(*lua.LState))
+				return n
+			}))
+		}
+		// the set-up operations of the host (the last thing before the outermost call)
+		others := map[int]context.Context{}
+		cancels := map[int]context.CancelFunc{}
+		ctxOf := func(n int) context.Context {
+			if n == 0 {
+				return newRoot()
 			}
-			run.Push(fn)
-			err = run.PCall(0, lua.MultRet, run.GetGlobal("roothandler").(*lua.LFunction))
-		case "resume":
-			fn, e := run.LoadString(p.Src)
-			if e != nil {
-				panic(e)
+			if _, ok := others[n]; !ok {
+				others[n], cancels[n] = context.WithCancel(context.Background())
 			}
-			co, _ := run.NewThread()
+			return others[n]
+		}
+		res.setupBad = c11ApplyPre(L, run, su.Pre, useCtx, ctxOf, func(n int) { cancels[n]() })
+		sh.armed = true
+		if fireAt < 0 && useCtx && sh.cancel != nil {
+			sh.fired = true
+			sh.gAtFire = sh.readG()
+			sh.cancel()
+		}
+		err := c11Enter(run, su.Entry, p.Src, c11RootHandler, false, func(co *lua.LState) {
 			if c := co.Context(); c != nil {
 				co.SetContext(&detCtx{inner: c, sh: sh})
 			}
-			for {
-				st, e2, _ := run.Resume(co, fn)
-				if st == lua.ResumeError {
-					err = e2
-					break
-				}
-				if st == lua.ResumeOK {
-					break
-				}
-			}
-		default:
-			err = run.DoString(p.Src)
-		}
+		})
 		res.res = classifyErr(err)
 		if err != nil {
 			res.msg = err.Error()
@@ -464,6 +805,9 @@ func runC11Prog(p c11Prog, fireAt int, useCtx, track bool, limit string, recordA
 }
 
 const c11TranspLimit = "4"
+
+// LIMIT of the fire runs in a non-default state set-up (see execC11 "fire")
+const c11SetupLimit = "4096"
 
 func execC11(ops []Op) []string {
 	var out []string
@@ -485,7 +829,7 @@ func execC11(ops []Op) []string {
 					out = append(out, "C11M wf "+s)
 				}
 			}
-		case "fire":
+		case "fire": // fire <program> <track> <k> [<set-up>]: k = 0: cancelled by the host before the outermost call starts
 			if atomic.LoadInt32(&c11Timeouts) >= 3 {
 				out = append(out, "X skipped-after-timeouts => "+strings.Join(a, " "))
 				continue
@@ -494,40 +838,72 @@ func execC11(ops []Op) []string {
 			track := a[2] == "1"
 			k, _ := strconv.Atoi(a[3])
 			p := c11Progs[idx]
-			r := runC11Prog(p, k, true, track, "", false, 0)
+			su, limit, where := c11SetupOf(p), "", ""
+			if len(a) > 4 {
+				// a state set-up other than the program's own: LIMIT is large but finite, so that an activation that
+				// does not poll at all runs out of work instead of hanging the harness
+				su, _ = parseC11Setup(a[4])
+				limit, where = c11SetupLimit, " setup="+a[4]
+			}
+			fireAt := k
+			if k == 0 {
+				fireAt = -1
+			}
+			r := runC11ProgIn(su, p, fireAt, true, track, limit, false, 0)
 			if r.res == "timeout" || r.res == "gopanic" {
-				out = append(out, fmt.Sprintf("X %s => prog=%s k=%d polls=%d %s", r.res, p.Name, k, r.sh.polls, r.msg))
+				out = append(out, fmt.Sprintf("X %s => prog=%s k=%d%s polls=%d %s", r.res, p.Name, k, where, r.sh.polls, r.msg))
+				continue
+			}
+			if r.setupBad != "" {
+				out = append(out, fmt.Sprintf("X setup => prog=%s k=%d%s %s", p.Name, k, where, r.setupBad))
 				continue
 			}
 			if !r.sh.fired {
-				out = append(out, fmt.Sprintf("X never-fired => prog=%s k=%d polls=%d res=%s (the program made fewer polls than the baseline run)", p.Name, k, r.sh.polls, r.res))
+				out = append(out, fmt.Sprintf("X never-fired => prog=%s k=%d%s polls=%d res=%s (the program made fewer polls than the baseline run)", p.Name, k, where, r.sh.polls, r.res))
 				continue
 			}
-			c11Note(r.sh.fireStack, len(r.sh.after))
-			obs := []string{strconv.Itoa(len(r.sh.after))}
-			if len(r.sh.after) > 64 {
-				obs = append(obs, r.sh.after[:64]...)
+			fireStack, after, afterN := r.sh.fireStack, r.sh.after, r.sh.afterN
+			if k == 0 {
+				// the first poll of the call sees a context that is already done: it plays the part of the firing poll
+				if len(after) == 0 {
+					out = append(out, fmt.Sprintf("X never-polled => prog=%s k=0%s res=%s host-calls=%d (the context was done before the call started; the call never polled it)", p.Name, where, r.res, r.sh.hostAfter))
+					continue
+				}
+				fireStack, after, afterN = after[0], after[1:], afterN-1
+			}
+			c11Note(fireStack, afterN)
+			obs := []string{strconv.Itoa(afterN)}
+			if len(after) > 64 {
+				obs = append(obs, after[:64]...)
 				obs = append(obs, "…")
 			} else {
-				obs = append(obs, r.sh.after...)
+				obs = append(obs, after...)
 			}
 			obs = append(obs, r.res)
 			gsame := "1"
 			if r.gEnd != r.sh.gAtFire {
 				gsame = "0"
 			}
-			out = append(out, fmt.Sprintf("C11M cancel %s => %s ; %d %s", r.sh.fireStack, strings.Join(obs, " "), r.sh.hostAfter, gsame))
+			out = append(out, fmt.Sprintf("C11M cancel %s => %s ; %d %s", fireStack, strings.Join(obs, " "), r.sh.hostAfter, gsame))
 		case "transp": // Impl vs Impl: without a context = with a context that never fires (bounded variant of the program)
 			idx, _ := strconv.Atoi(a[1])
 			p := c11Progs[idx]
-			r0 := runC11Prog(p, 0, false, false, c11TranspLimit, false, 0)
-			r1 := runC11Prog(p, 0, true, a[2] == "1", c11TranspLimit, false, 0)
-			same := r0.res == r1.res && r0.msg == r1.msg && strings.Join(r0.emits, ";") == strings.Join(r1.emits, ";") && r0.res != "timeout"
+			su, name := c11SetupOf(p), p.Name
+			if len(a) > 3 {
+				su, _ = parseC11Setup(a[3])
+				name += "@" + a[3]
+			}
+			r0 := runC11ProgIn(su, p, 0, false, false, c11TranspLimit, false, 0)
+			r1 := runC11ProgIn(su, p, 0, true, a[2] == "1", c11TranspLimit, false, 0)
+			same := r0.res == r1.res && r0.msg == r1.msg && strings.Join(r0.emits, ";") == strings.Join(r1.emits, ";") && r0.res != "timeout" && r1.setupBad == ""
 			v := "same"
 			if !same {
 				v = fmt.Sprintf("diff res=%s/%s emits=%d/%d", r0.res, r1.res, len(r0.emits), len(r1.emits))
+				if r1.setupBad != "" {
+					v += " setup:" + strings.ReplaceAll(r1.setupBad, " ", "_")
+				}
 			}
-			out = append(out, fmt.Sprintf("C11M transp %s => %s", p.Name, v))
+			out = append(out, fmt.Sprintf("C11M transp %s => %s", name, v))
 		case "block":
 			where := "main"
 			if len(a) > 5 {
@@ -553,13 +929,27 @@ func execC11Block(kind, ctxS, readyS, cancelS, where string) string {
 		bufCap, _ = strconv.Atoi(where[i+4:])
 		where = where[:i]
 	}
-	L := lua.NewState()
-	var cancel context.CancelFunc = func() {}
-	if ctxS == "1" {
-		var ctx context.Context
-		ctx, cancel = context.WithCancel(context.Background())
-		L.SetContext(ctx)
+	// "<where>@<libs>/<pre>": state set-up (the entry point is given by where); context 0 of pre is the one cancelled
+	su := c11Setup{Libs: "open", Pre: []string{"sc0"}}
+	if i := strings.Index(where, "@"); i >= 0 {
+		su, _ = parseC11Setup(where[i+1:] + "/do")
+		where = where[:i]
 	}
+	L := c11NewState(su.Libs)
+	var cancel context.CancelFunc = func() {}
+	ctxs := map[int]context.Context{}
+	cancels := map[int]context.CancelFunc{}
+	ctxOf := func(n int) context.Context {
+		if _, ok := ctxs[n]; !ok {
+			ctxs[n], cancels[n] = context.WithCancel(context.Background())
+			if n == 0 {
+				cancel = cancels[0]
+			}
+		}
+		return ctxs[n]
+	}
+	L.SetGlobal("emit", L.NewFunction(func(*lua.LState) int { return 0 }))
+	setupBad := c11ApplyPre(L, L, su.Pre, ctxS == "1", ctxOf, func(n int) { cancels[n]() })
 	var th *lua.LState
 	if strings.HasPrefix(where, "thread") {
 		var own context.CancelFunc
@@ -643,13 +1033,16 @@ func execC11Block(kind, ctxS, readyS, cancelS, where string) string {
 	if readyS == "1" && cancelS == "1" {
 		cancel()
 	}
+	if setupBad != "" {
+		return "X setup => block " + kind + " " + su.String() + " " + setupBad
+	}
 	return fmt.Sprintf("C11M block %s %s %s %s => %s", kind, ctxS, readyS, cancelS, reply)
 }
 
 // ---------- scripts: generated operation sequences ----------
 
 const c11Driver = `
-cos = {}
+cos = cos or {}
 local handler, mtobj
 local function body(kind)
   while true do
@@ -670,8 +1063,9 @@ local function body(kind)
   end
 end
 handler = function(e) body("h") return "handled" end
+HANDLER = handler
 mtobj = setmetatable({}, {__index = function(t, k) return body("m") end})
-body("main")
+body(ROOTKIND or "main")
 `
 
 func execC11Script(ops []Op) []string {
@@ -687,7 +1081,7 @@ func execC11Script(ops []Op) []string {
 		line += " " + strings.Join(toks, " ")
 	}
 	var obs []string
-	var res string
+	var res, setupBad string
 	done := make(chan struct{})
 	go func() {
 		defer close(done)
@@ -696,7 +1090,17 @@ func execC11Script(ops []Op) []string {
 				res = "gopanic:" + strings.ReplaceAll(fmt.Sprint(r), " ", "_")
 			}
 		}()
-		L := lua.NewState()
+		// init: ctx | noctx (the set-up the scripts have always run in) or a state set-up <libs>/<pre>/<entry>
+		su := c11Setup{Libs: "open", Entry: "do"}
+		if init == "ctx" {
+			su.Pre = []string{"sc0"}
+		} else if init != "noctx" {
+			var ok bool
+			if su, ok = parseC11Setup(init); !ok {
+				panic("bad script init " + init)
+			}
+		}
+		L := c11NewState(su.Libs)
 		defer L.Close()
 		ctxs := map[int]context.Context{}
 		cancels := map[int]context.CancelFunc{}
@@ -706,9 +1110,16 @@ func execC11Script(ops []Op) []string {
 			}
 			return ctxs[n]
 		}
-		if init == "ctx" {
-			L.SetContext(getCtx(0))
+		run := L
+		if su.Entry == "wdo" {
+			// worker thread of a main state that carries context 8; the worker is thread 1 of the family
+			L.SetContext(getCtx(8))
+			run, _ = L.NewThread()
+			cosT := L.NewTable()
+			cosT.RawSetInt(1, run)
+			L.SetGlobal("cos", cosT)
 		}
+		L.SetGlobal("emit", L.NewFunction(func(*lua.LState) int { return 0 }))
 		pos := 0
 		fetches := 0
 		L.SetGlobal("xpcallgo", L.NewFunction(c11XPCallGo))
@@ -717,7 +1128,7 @@ func execC11Script(ops []Op) []string {
 			if fetches > 4*len(toks)+200 {
 				panic("C11M script runaway")
 			}
-			obs = append(obs, absStack("P"))
+			obs = append(obs, absStack(su.rootTok()))
 			isCo := L.ToBool(1)
 			t := "ret"
 			if pos < len(toks) {
@@ -772,7 +1183,17 @@ func execC11Script(ops []Op) []string {
 				return ret(t, 0)
 			}
 		}))
-		err := L.DoString(c11Driver)
+		if su.Entry == "resume" {
+			L.SetGlobal("ROOTKIND", lua.LString("co")) // the root body runs directly under threadRun: it can yield (to the host)
+		}
+		// the set-up operations of the host (the last thing before the outermost call)
+		setupBad = c11ApplyPre(L, run, su.Pre, true, getCtx, func(n int) { cancels[n]() })
+		err := c11Enter(run, su.Entry, c11Driver, c11ScriptRootHandler, true, func(co *lua.LState) {
+			// the fresh thread is thread 1 of the family
+			cosT := L.NewTable()
+			cosT.RawSetInt(1, co)
+			L.SetGlobal("cos", cosT)
+		})
 		res = classifyErr(err)
 	}()
 	select {
@@ -784,6 +1205,9 @@ func execC11Script(ops []Op) []string {
 	if strings.HasPrefix(res, "gopanic") {
 		return []string{"X " + res + " => " + line}
 	}
+	if setupBad != "" {
+		return []string{"X setup => " + line + " : " + setupBad}
+	}
 	return []string{line + " => " + strings.Join(append(obs, res), " ")}
 }
 
@@ -794,7 +1218,27 @@ func genC11Script(r *Rng, maxLen int) []Op {
 	if r.Chance(30) {
 		init = "noctx"
 	}
+	return genC11ScriptIn(r, maxLen, init, false)
+}
+
+// genC11ScriptIn: a script for a given init (ctx | noctx | state set-up).  noMetaFirst: the first nested call of the
+// run must not be a metamethod call (see c11Compatible: excluded shape of entry resume on a never-called state).
+func genC11ScriptIn(r *Rng, maxLen int, init string, noMetaFirst bool) []Op {
 	ops := []Op{{Args: []string{"script", init}}}
+	defer func() {
+		if !noMetaFirst {
+			return
+		}
+		for _, o := range ops[1:] {
+			switch o.Args[1] {
+			case "p", "pp", "xl", "xg":
+				return
+			case "m":
+				o.Args[1] = "p"
+				return
+			}
+		}
+	}()
 	n := r.Range(3, maxLen)
 	created := 0
 	wrapped := map[int]bool{}
@@ -874,12 +1318,13 @@ func runC11M(run *Run) {
 	if run.Tier == "thorough" {
 		capPolls, nScripts, maxLen = 600, 40000, 60
 	}
-	run.Rule = "(1) corpus of " + strconv.Itoa(len(c11Progs)) + " divergent Lua programs (tight loops, recursion, tail calls, goto loops, pcall/xpcall retry loops that catch the error and loop again, Lua/Go error handlers, metamethod recursion, coroutine ping-pong/generators/nesting, in-flight sort/gsub callbacks, channel ops, worker thread, Go-API Resume, context replaced mid-run) run on the real interpreter with a deterministic context that fires inside its k-th poll, for EVERY k up to the cap (bounded-exhaustive over k: a test, not a proof); the abstract Go stack at the firing poll and at every later poll is compared exactly with the Lean model's unwinding, plus Spec: no host call after firing, result = cancellation error, polls ≤ 2d+1.  (2) generated operation sequences (scripts) interpreted by a Lua driver on the real interpreter and by the Lean machine: nest at every fetch + result.  (3) blocking channel operations × ctx × peer-ready × cancel with a second goroutine.  (4) transparency Impl vs Impl.  distinct = distinct firing stacks / script skeletons"
+	run.Rule = "(1) corpus of " + strconv.Itoa(len(c11Progs)) + " divergent Lua programs (tight loops, recursion, tail calls, goto loops, pcall/xpcall retry loops that catch the error and loop again, Lua/Go error handlers, metamethod recursion, coroutine ping-pong/generators/nesting, in-flight sort/gsub callbacks, channel ops, worker thread, Go-API Resume, context replaced mid-run) run on the real interpreter with a deterministic context that fires inside its k-th poll, for EVERY k up to the cap (bounded-exhaustive over k: a test, not a proof); the abstract Go stack at the firing poll and at every later poll is compared exactly with the Lean model's unwinding, plus Spec: no host call after firing, result = cancellation error, polls ≤ 2d+1.  (2) generated operation sequences (scripts) interpreted by a Lua driver on the real interpreter and by the Lean machine: nest at every fetch + result.  (3) blocking channel operations × ctx × peer-ready × cancel with a second goroutine.  (4) transparency Impl vs Impl.  (5) STATE SET-UP dimension, crossed with (1)-(4): libraries {NewState | SkipOpenLibs + libraries installed without any call | SkipOpenLibs, none | (thorough) opened through Call} × every sequence of ≤ 2 host operations {earlier call, SetContext(other), RemoveContext, earlier run stopped by cancellation, cancel(other)} before SetContext of the scenario's context (optionally followed by a call under it / by cancelling the replaced context) × entry point of the outermost call {DoString, PCall, PCall+Lua handler, unprotected Call, CallByParam ± handler, Resume of a fresh NewThread thread, DoString on a worker thread}: per set-up firing points k = 1, a seed-chosen k ≤ 60 and (every third) k = 0 = cancelled before the call starts, on programs rotating through the set-ups (bounded-exhaustive over set-ups: a test), one transparency run per four set-ups, one generated script per set-up (also set-ups ending without / with a foreign / with a done context), blocking operations in 15 set-ups.  distinct = distinct firing stacks / script skeletons / set-ups"
 	run.Assume = []string{
 		"wall-clock promptness is not modelled: 'prompt' = bounded number of dispatch attempts; cancellation is delivered synchronously inside a poll (real cancelCtx children are cancelled synchronously by cancel())",
 		"long-running Go library calls are not Lua instructions (string.rep, pattern matching, sort itself, table.foreach(t, pcall)); a Go function in flight returns once its nested call returned",
 		"coroutines created before SetContext, and activations started before a SetContext on a state without context, do not poll (known findings C11-setcontext-under-running-loop / C11-removecontext-under-running-loop)",
 		"Go runtime: recover/defer order, reflect.Select picks a ready case, runtime.Callers reports the physical call stack",
+		"state set-ups: excluded shape = Resume of a fresh thread as the very first call of a global state (nothing called before, G.MainThread == nil) whose first nested call is a metamethod call: callR's bootstrap branch runs that nested call with baseframe == nil and Resume dies with a Go nil-pointer panic, with or without a context (defect of the unchanged tree outside C11, see notes/C11.md); fire runs in a non-default set-up use LIMIT = 4096 (runaway guard for activations that never poll), far above the polls needed to reach any k used",
 	}
 	run.Trusted = append(run.Trusted, "absStack: mapping of Go function names (PCall, PCall.func1, threadRun, mainLoop, mainLoopWithContext, basePCall, baseXPCall, wrapaux, callGFunction) to model frames")
 	root := NewRng(uint64(run.Seed))
@@ -919,6 +1364,7 @@ func runC11M(run *Run) {
 		}(vi, v)
 	}
 	wg.Wait()
+	pollsOf := map[string]int{} // "<program>/<track>" → polls counted in the baseline run (at most the cap)
 	for vi, v := range variants {
 		tr := "0"
 		if v.track {
@@ -928,8 +1374,9 @@ func runC11M(run *Run) {
 		if n > capPolls {
 			n = capPolls
 		}
+		pollsOf[strconv.Itoa(v.idx)+"/"+tr] = n
 		// per-seed variation: the seed chooses which extra window of late firing points is explored
-		extra := root.Fork(uint64(9000 + vi)).Range(0, 40)
+		extra := root.Fork(uint64(9000+vi)).Range(0, 40)
 		ops := []Op{{Args: []string{"base", strconv.Itoa(v.idx), tr, strconv.Itoa(capPolls + extra)}}}
 		for k := 1; k <= n; k++ {
 			ops = append(ops, Op{Args: []string{"fire", strconv.Itoa(v.idx), tr, strconv.Itoa(k)}})
@@ -964,8 +1411,93 @@ func runC11M(run *Run) {
 			}
 		}
 	}
+	// blocking operations × state set-up: the wake-up by cancellation and the undisturbed hand-over to a peer
+	for _, k := range []string{"recv", "select", "selsend", "send"} {
+		for _, libs := range []string{"open", "direct"} {
+			for _, pre := range []string{"sc0", "w+sc0", "sc0+w", "sc1+sc0", "sc1+rc+sc0", "sc1+cc1+sc0", "R+sc0", "R+rc+sc0"} {
+				if libs == "open" && pre == "sc0" {
+					continue // the set-up of the cases above
+				}
+				bops = append(bops, Op{Args: []string{"block", k, "1", "0", "1", "main@" + libs + "/" + pre}})
+				bops = append(bops, Op{Args: []string{"block", k, "1", "1", "0", "main@" + libs + "/" + pre}})
+			}
+		}
+		for _, wh := range []string{"thread-root", "thread-own", "lua-co"} {
+			for _, pre := range []string{"sc0", "R+sc0"} {
+				bops = append(bops, Op{Args: []string{"block", k, "1", "0", "1", wh + "@direct/" + pre}})
+			}
+		}
+	}
 	for i, o := range bops {
 		cases = append(cases, Case{Idx: 200000 + i, Ops: []Op{o}, Note: "block"})
+	}
+	// ---- state set-up dimension (c11Setup): libraries × host operations before the call × entry point ----
+	// fire: every set-up gets firing points k = 1, one seed-chosen k, every third also k = 0 (cancelled before the call
+	// starts), each on another program (the programs rotate through the set-ups; the seed chooses the rotation);
+	// thorough: k = 0…6 and three seed-chosen ones.  Every k of every program is covered in the programs' own set-up above.
+	thorough := run.Tier == "thorough"
+	rot := root.Fork(70000).Intn(1 << 16)
+	si, setupFires := 0, 0
+	for _, libs := range c11LibKinds(thorough, true) {
+		for _, pre := range c11PreSeqs(true) {
+			for _, entry := range c11Entries {
+				su := c11Setup{Libs: libs, Pre: pre, Entry: entry}
+				var compat []int
+				for i, p := range c11Progs {
+					if c11Compatible(p, su) {
+						compat = append(compat, i)
+					}
+				}
+				r := root.Fork(uint64(70001 + si))
+				ks := []int{1, r.Range(2, 60)}
+				if si%3 == 0 {
+					ks = append(ks, 0)
+				}
+				if thorough {
+					ks = []int{0, 1, 2, 3, 4, 5, 6, r.Range(7, 60), r.Range(7, 200), r.Range(7, 200)}
+				}
+				var ops []Op
+				for j, k := range ks {
+					pi := compat[(rot+si*3+j)%len(compat)]
+					tr := "1"
+					if strings.Contains(c11Progs[pi].Src, "coroutine.") && (si+j)%2 == 1 {
+						tr = "0"
+					}
+					// an untracked variant counts few polls before its runaway guard stops it: stay within the baseline
+					if n := pollsOf[strconv.Itoa(pi)+"/"+tr]; k > n && n > 0 {
+						k = 1 + (k-1)%n
+					}
+					ops = append(ops, Op{Args: []string{"fire", strconv.Itoa(pi), tr, strconv.Itoa(k), su.String()}})
+					setupFires++
+				}
+				if si%4 == 0 || thorough {
+					pi := compat[(rot+si)%len(compat)]
+					ops = append(ops, Op{Args: []string{"transp", strconv.Itoa(pi), "1", su.String()}})
+				}
+				cases = append(cases, Case{Idx: 400000 + si, Ops: ops, Note: "setup " + su.String()})
+				run.Distinct["setup:"+su.String()] = true
+				si++
+			}
+		}
+	}
+	// scripts: one (thorough: four) generated operation sequence per set-up, also for set-ups that leave the state
+	// without a context, with a foreign one or with a done one
+	sj := 0
+	for _, libs := range c11LibKinds(thorough, false) {
+		for _, pre := range append(c11PreSeqs(true), c11PreSeqs(false)...) {
+			for _, entry := range c11Entries {
+				su := c11Setup{Libs: libs, Pre: pre, Entry: entry}
+				reps := 1
+				if thorough {
+					reps = 4
+				}
+				for q := 0; q < reps; q++ {
+					sc := genC11ScriptIn(root.Fork(uint64(80000+sj)), maxLen, su.String(), su.Entry == "resume" && !su.calledBefore())
+					cases = append(cases, Case{Idx: 500000 + sj, Ops: sc, Note: "setup-script"})
+					sj++
+				}
+			}
+		}
 	}
 	// scripts
 	for i := 0; i < nScripts; i++ {
@@ -985,6 +1517,9 @@ func runC11M(run *Run) {
 	run.Extra["fire_points"] = firePoints
 	run.Extra["scripts"] = nScripts
 	run.Extra["blocking_cases"] = len(bops)
+	run.Extra["setups"] = si
+	run.Extra["setup_fire_points"] = setupFires
+	run.Extra["setup_scripts"] = sj
 	c11Stats.Lock()
 	run.Extra["distinct_fire_stacks"] = len(c11Stats.fireStacks)
 	run.Extra["max_depth_at_firing"] = c11Stats.maxDepth
